@@ -10,8 +10,10 @@
 //! class_reader.rs) must give the same event trace and stream positions.
 mod rec;
 mod edge;
+mod stream;
+mod values;
 
-use std::io::Cursor;
+use std::io::{Cursor, Read, Seek};
 use std::panic::AssertUnwindSafe;
 use std::path::{Path, PathBuf};
 use duke::tree::class::ClassFile;
@@ -25,21 +27,41 @@ use rec::*;
 /// result of one `read_class_multi` call: trace (None = class declined) and stream position afterwards
 type ReadAns = Result<(Option<Vec<Ev>>, u64), String>;
 
-fn run_config(stream: &[u8], descs: &[VDesc]) -> Vec<ReadAns> {
-	let mut cur = Cursor::new(stream);
+thread_local! {
+	/// what visit_class was called with (version, access, name, super class, interfaces), one entry per read of the last runs
+	static HEADERS: std::cell::RefCell<Vec<String>> = const { std::cell::RefCell::new(Vec::new()) };
+}
+fn take_headers() -> Vec<String> { HEADERS.with(|h| std::mem::take(&mut *h.borrow_mut())) }
+/// the class header handed to visit_class does not depend on the visitor (it is the same for a declining, a partial and the full visitor)
+fn check_headers(r: &mut Report, tag: &str, got: &[String], full: &[String], head: &dyn Fn(&str) -> String, cfg_text: &str) {
+	for (i, (g, f)) in got.iter().zip(full).enumerate() {
+		if g != f {
+			let what = format!("[{tag}] read {i}: visit_class was called with {g} but the full read of the same class reports {f}");
+			r.violation(what.clone(), format!("{}what: {what}\n", head(cfg_text)));
+			return;
+		}
+	}
+}
+
+/// successive `read_class_multi` calls on ONE reader owned by the harness; `pos` reads the reader's position again after every call
+fn run_reads<R: Read + Seek>(cur: &mut R, pos: impl Fn(&mut R) -> u64, descs: &[VDesc]) -> Vec<ReadAns> {
 	let mut out = vec![];
 	for d in descs {
-		let r = guarded(AssertUnwindSafe(|| duke::read_class_multi(&mut cur, RecMulti::new(d.clone()))));
+		let r = guarded(AssertUnwindSafe(|| duke::read_class_multi(cur, RecMulti::new(d.clone()))));
 		match r {
 			Err(p) => { out.push(Err(format!("panic: {p}"))); break; }
 			Ok(Err(e)) => { out.push(Err(format!("error: {e:#}"))); break; }
 			Ok(Ok(m)) => match m.result {
-				Some(t) => out.push(Ok((t, cur.position()))),
+				Some(t) => { HEADERS.with(|h| h.borrow_mut().push(m.header.clone().unwrap_or_default())); out.push(Ok((t, pos(cur)))) }
 				None => { out.push(Err("visitor returned without visit_class".into())); break; }
 			},
 		}
 	}
 	out
+}
+fn run_config(stream: &[u8], descs: &[VDesc]) -> Vec<ReadAns> {
+	let mut cur = Cursor::new(stream);
+	run_reads(&mut cur, |c| c.position(), descs)
 }
 
 // ---------------------------------------------------------------- the projection oracle (independent of the model)
@@ -235,7 +257,8 @@ fn g_rows(rows: &[RowN], pcs: &MethodPcs) -> String {
 /// `pcs`: the methods of the class the trace belongs to; `cur`: the method the events belong to (None at class / field level)
 fn g_ev(e: &Ev, cur: &MethodPcs) -> String {
 	match e {
-		Ev::Attr { name, raw: None, .. } => match KNOWN_NAMES.iter().position(|n| n == name) {
+		Ev::Attr { name, raw: None, val, .. } => match KNOWN_NAMES.iter().position(|n| n == name) {
+			Some(i) if !val.is_empty() => format!("KV {i} {}", gnums(val.iter().copied())),
 			Some(i) => format!("K {i}"),
 			None => format!("EAttr {} false []", gstr(&cps_str(name))),
 		},
@@ -312,6 +335,18 @@ fn random_mask(rng: &mut Rng, all: &[&'static str]) -> Mask {
 	}
 }
 
+/// an accepting visitor with random masks and random decline choices per member
+fn random_desc(rng: &mut Rng, counts: (usize, usize, usize)) -> VDesc {
+	let (nf, nm, nr) = counts;
+	VDesc {
+		accept: true, class: random_mask(rng, &CLASS_FLAGS),
+		fields: (0..nf).map(|_| rng.chance(3, 4)).collect(), field_default: true,
+		methods: (0..nm).map(|_| if rng.chance(4, 5) { Some(random_mask(rng, &METHOD_FLAGS)) } else { None }).collect(), method_default: Some(METHOD_FLAGS.to_vec()),
+		codes: (0..nm).map(|_| if rng.chance(3, 4) { Some(random_mask(rng, &CODE_FLAGS)) } else { None }).collect(), code_default: Some(CODE_FLAGS.to_vec()),
+		rcs: (0..nr).map(|_| rng.chance(2, 3)).collect(), rc_default: true,
+	}
+}
+
 /// the visitor configurations tried on a class with the given member counts
 fn configs(rng: &mut Rng, counts: (usize, usize, usize), thorough: bool, r: &mut Report) -> Vec<(String, VDesc)> {
 	let (nf, nm, nr) = counts;
@@ -368,13 +403,7 @@ fn configs(rng: &mut Rng, counts: (usize, usize, usize), thorough: bool, r: &mut
 	}
 	// random masks and random decline choices, per member
 	for _ in 0..(if thorough { 40 } else { 10 }) {
-		let d = VDesc {
-			accept: true, class: random_mask(rng, &CLASS_FLAGS),
-			fields: (0..nf).map(|_| rng.chance(3, 4)).collect(), field_default: true,
-			methods: (0..nm).map(|_| if rng.chance(4, 5) { Some(random_mask(rng, &METHOD_FLAGS)) } else { None }).collect(), method_default: Some(METHOD_FLAGS.to_vec()),
-			codes: (0..nm).map(|_| if rng.chance(3, 4) { Some(random_mask(rng, &CODE_FLAGS)) } else { None }).collect(), code_default: Some(CODE_FLAGS.to_vec()),
-			rcs: (0..nr).map(|_| rng.chance(2, 3)).collect(), rc_default: true,
-		};
+		let d = random_desc(rng, counts);
 		push("random", d, &mut out);
 	}
 	out
@@ -399,7 +428,7 @@ fn sorted_dbg(es: &[Ev], relax_a: bool, relax_b: bool, dropped: &mut (bool, bool
 		// labels that nothing delivered refers to may or may not be attached (the tree keeps those of the full read)
 		Ev::Code { max_stack, max_locals, insns, exc, es, .. } => format!("Code {max_stack} {max_locals} {:?} {exc} {:?}", insns.iter().map(|i| (&i.frame, &i.text)).collect::<Vec<_>>(), sorted_dbg(es, relax_a, relax_b, dropped)),
 		Ev::Deferred { slot, items, .. } if relax_b && items.is_empty() && *slot == "local_variable_table" => { dropped.1 = true; String::new() }
-		Ev::Attr { name, raw: None, content } if relax_a && content == "[]" && ANNOTATION_ATTRS.contains(&name.as_str()) => { dropped.0 = true; String::new() }
+		Ev::Attr { name, raw: None, content, .. } if relax_a && content == "[]" && ANNOTATION_ATTRS.contains(&name.as_str()) => { dropped.0 = true; String::new() }
 		// `optional` is an annotation of the projection oracle, not part of the event
 		Ev::Deferred { slot, items, .. } => format!("Deferred {slot} {items:?}"),
 		e => format!("{e:?}"),
@@ -572,7 +601,7 @@ fn lite_view(e: &Ev) -> Option<Ev> {
 /// the end of its class file and deliver the projection of the full read.
 fn ready_made(r: &mut Report, stream: &[u8], ends: &[u64], full_traces: &[Option<Vec<Ev>>], descs: &[VDesc], unit_too: bool, head: &dyn Fn(&str) -> String) {
 	let cfg_text = descs.iter().map(describe).collect::<Vec<_>>().join("\n  ");
-	let mut fail = |r: &mut Report, which: &str, what: String| { let what = format!("[{which}] {what}"); r.violation(what.clone(), format!("{}what: {what}\n", head(&cfg_text))); };
+	let fail = |r: &mut Report, which: &str, what: String| { let what = format!("[{which}] {what}"); r.violation(what.clone(), format!("{}what: {what}\n", head(&cfg_text))); };
 	if unit_too {
 		let mut cur = Cursor::new(stream);
 		for (i, end) in ends.iter().enumerate() {
@@ -648,8 +677,169 @@ fn ready_made_replay(r: &mut Report, cb: &ClassBytes, shape: &Option<edge::Shape
 	}
 }
 
+// ---------------------------------------------------------------- the caller's reader: decline patterns, other readers, read_class
+/// what one read must have answered: success, the class's end as the CALLER's reader position, the projection of the full read
+fn judge_reads(r: &mut Report, tag: &str, ans: &[ReadAns], descs: &[VDesc], ends: &[u64], full_traces: &[Option<Vec<Ev>>], head: &dyn Fn(&str) -> String) -> bool {
+	let cfg_text = descs.iter().map(describe).collect::<Vec<_>>().join("\n  ");
+	let mut ok = true;
+	for i in 0..descs.len() {
+		match ans.get(i) {
+			None => break,
+			Some(Err(e)) => {
+				let what = format!("[{tag}] read {i} fails ({e}) although the full read of the same class succeeds (an earlier read left the caller's reader somewhere else than behind its class, or a declined / skipped item moved the stream)");
+				r.violation(what.clone(), format!("{}what: {what}\n", head(&cfg_text)));
+				return false;
+			}
+			Some(Ok((t, pos))) => {
+				if *pos != ends[i] {
+					let what = format!("[{tag}] after read {i} the caller's reader stands at position {pos}, the class file ends at {} (the next read_class_multi call on this reader does not find the next class)", ends[i]);
+					r.violation(what.clone(), format!("{}what: {what}\n", head(&cfg_text)));
+					ok = false;
+				}
+				let want = project_class(&full_traces[i], &descs[i]);
+				let same = match (t, &want) { (Some(a), Some(b)) => evs_match(a, b), (None, None) => true, _ => false };
+				if !same {
+					let diff = match (t, &want) { (Some(a), Some(b)) => first_diff(a, b), _ => "class accepted/declined differently".into() };
+					let what = format!("[{tag}] read {i}: the visitor did not receive the projection of the full read of class {i}: {diff}");
+					r.violation(what.clone(), format!("{}what: {what}\n", head(&cfg_text)));
+					ok = false;
+				}
+			}
+		}
+	}
+	ok
+}
+
+/// Every accept / decline pattern over the classes of a concatenated stream (declined classes first, last and in the middle, several
+/// in a row), the accepted classes read by a visitor without interests, a random partial visitor or the full visitor.  Each pattern
+/// is read three times: from a `Cursor`, from the counting reader and from the counting reader handing out short reads; after every
+/// call the position of the reader the harness owns is read again.  Returns the runs for the Coq model (Cursor answers).
+fn decline_patterns(r: &mut Report, rng: &mut Rng, ctx: &Ctx, stream: &[u8], ends: &[u64], full_traces: &[Option<Vec<Ev>>], full_headers: &[String], head: &dyn Fn(&str) -> String) -> Vec<(Vec<VDesc>, Vec<ReadAns>)> {
+	let k = ends.len();
+	let mut to_model = vec![];
+	for (p, pat) in stream::patterns(k).into_iter().enumerate() {
+		let kind = p % 3;
+		let descs: Vec<VDesc> = pat.iter().enumerate().map(|(i, acc)| {
+			if !*acc { return VDesc { accept: false, ..VDesc::full() }; }
+			match kind {
+				0 => VDesc { class: vec![], method_default: Some(vec![]), code_default: Some(vec![]), ..VDesc::full() },
+				1 => random_desc(rng, member_counts(&full_traces[i])),
+				_ => VDesc::full(),
+			}
+		}).collect();
+		let tag = format!("decline-pattern {}", pat.iter().map(|a| if *a { 'A' } else { 'D' }).collect::<String>());
+		r.count("decline_pattern_runs");
+		r.count(&format!("decline_pattern:declined_{}_of_{k}", pat.iter().filter(|a| !**a).count()));
+		if pat.iter().zip(pat.iter().skip(1)).any(|(a, b)| !*a && *b) { r.count("decline_pattern:declined_class_followed_by_accepted_class"); }
+		if k >= 3 && pat[0] && pat[k - 1] && pat[1..k - 1].iter().any(|a| !*a) { r.count("decline_pattern:declined_in_the_middle"); }
+		// (a) std::io::Cursor
+		let _ = take_headers();
+		let ans = run_config(stream, &descs);
+		r.evaluations += 1;
+		judge_reads(r, &tag, &ans, &descs, ends, full_traces, head);
+		check_headers(r, &tag, &take_headers(), full_headers, head, &descs.iter().map(describe).collect::<Vec<_>>().join("\n  "));
+		// (b), (c) the counting reader, whole and short reads
+		for chunk in [0usize, 1 + p % 5] {
+			let mut c = stream::Counting::new(stream, chunk);
+			let mut beyond = false;
+			let mut seen_end = 0usize;
+			let got = {
+				let mut out = vec![];
+				for d in &descs {
+					let one = run_reads(&mut c, |c| c.pos, std::slice::from_ref(d));
+					let Some(a) = one.into_iter().next() else { break };
+					let stop = a.is_err();
+					if let Some(e) = ends.get(seen_end) { if c.max_touched > *e { beyond = true; } }
+					seen_end += 1;
+					out.push(a);
+					if stop { break; }
+				}
+				out
+			};
+			r.evaluations += 1;
+			r.count(if chunk == 0 { "counting_reader_runs" } else { "counting_reader_short_read_runs" });
+			r.count_n("counting_reader:read_calls", c.reads);
+			r.count_n("counting_reader:seek_calls", c.seeks);
+			if beyond { r.count("counting_reader:runs_with_read_ahead_beyond_the_class"); }
+			let rtag = format!("{tag}, Read + Seek reader counting calls{}", if chunk == 0 { String::new() } else { format!(", at most {chunk} byte(s) per read call") });
+			let fine = judge_reads(r, &rtag, &got, &descs, ends, full_traces, head);
+			// the outcome must not depend on the kind of reader
+			let same = got.len() == ans.len() && got.iter().zip(&ans).all(|(x, y)| match (x, y) { (Ok((t, p)), Ok((u, q))) => p == q && t == u, (Err(_), Err(_)) => true, _ => false });
+			if fine && !same {
+				let what = format!("[{rtag}] the reads answer differently than on a std::io::Cursor over the same bytes");
+				let cfg_text = descs.iter().map(describe).collect::<Vec<_>>().join("\n  ");
+				r.violation(what.clone(), format!("{}what: {what}\n", head(&cfg_text)));
+			}
+		}
+		if ctx.thorough || kind != 2 || p < 3 { r.count("decline_patterns_to_model"); to_model.push((descs, ans)); }
+	}
+	to_model
+}
+
+/// successive `duke::read_class` calls on one reader: each returns the class it returns for the class file alone, and leaves the
+/// caller's reader behind that class
+fn read_class_successive(r: &mut Report, parts: &[&ClassBytes], stream: &[u8], ends: &[u64], head: &dyn Fn(&str) -> String) {
+	let alone: Vec<Option<String>> = parts.iter().map(|p| match guarded(|| duke::read_class(&mut Cursor::new(&p.bytes))) { Ok(Ok(t)) => Some(format!("{t:?}")), _ => None }).collect();
+	if alone.iter().any(|a| a.is_none()) { r.count("read_class_successive:skipped_tree_builder_rejects_a_class"); return; }
+	let fail = |r: &mut Report, what: String| { r.violation(what.clone(), format!("{}what: {what}\n", head("duke::read_class called once per class on the one reader"))); };
+	// ONE visitor handed from call to call: a Vec<ClassFile> collects the classes of the stream in order, one per call
+	{
+		let mut cur = Cursor::new(stream);
+		let mut acc: Vec<ClassFile> = Vec::new();
+		for i in 0..parts.len() {
+			r.count("read_class_successive:accumulating_reads");
+			match guarded(AssertUnwindSafe(|| duke::read_class_multi(&mut cur, std::mem::take(&mut acc)))) {
+				Ok(Ok(v)) => {
+					acc = v;
+					if acc.len() != i + 1 { fail(r, format!("[read_class_multi into one Vec<ClassFile>] after call {i} the visitor holds {} classes, expected {}", acc.len(), i + 1)); break; }
+					if cur.position() != ends[i] { fail(r, format!("[read_class_multi into one Vec<ClassFile>] after call {i} the caller's reader stands at position {}, the class file ends at {}", cur.position(), ends[i])); break; }
+					if Some(format!("{:?}", acc[i])) != alone[i] || acc[..i].iter().zip(&alone).any(|(a, b)| Some(format!("{a:?}")) != *b) { fail(r, format!("[read_class_multi into one Vec<ClassFile>] after call {i} the collected classes are not the classes of the stream in order")); break; }
+				}
+				Ok(Err(e)) => { fail(r, format!("[read_class_multi into one Vec<ClassFile>] call {i} fails ({e:#})")); break; }
+				Err(p) => { fail(r, format!("[read_class_multi into one Vec<ClassFile>] call {i} panicked: {p}")); break; }
+			}
+		}
+	}
+	for chunk in [usize::MAX, 0, 3] {
+		let mut cur = Cursor::new(stream);
+		let mut cnt = stream::Counting::new(stream, if chunk == usize::MAX { 0 } else { chunk });
+		let which = if chunk == usize::MAX { "std::io::Cursor".to_owned() } else if chunk == 0 { "Read + Seek reader counting calls".to_owned() } else { format!("Read + Seek reader counting calls, at most {chunk} bytes per read call") };
+		for i in 0..parts.len() {
+			r.count("read_class_successive:reads");
+			let (ans, pos) = if chunk == usize::MAX { let a = guarded(AssertUnwindSafe(|| duke::read_class(&mut cur))); (a, cur.position()) } else { let a = guarded(AssertUnwindSafe(|| duke::read_class(&mut cnt))); (a, cnt.pos) };
+			match ans {
+				Ok(Ok(t)) => {
+					if pos != ends[i] { fail(r, format!("[read_class, {which}] after call {i} the caller's reader stands at position {pos}, the class file ends at {}", ends[i])); break; }
+					if Some(format!("{t:?}")) != alone[i] { fail(r, format!("[read_class, {which}] call {i} on the concatenated stream returns another class than read_class on class file {i} alone")); break; }
+				}
+				Ok(Err(e)) => { fail(r, format!("[read_class, {which}] call {i} fails ({e:#}) although read_class reads class file {i} alone")); break; }
+				Err(p) => { fail(r, format!("[read_class, {which}] call {i} panicked: {p}")); break; }
+			}
+		}
+	}
+}
+
 // ---------------------------------------------------------------- one stream
-fn do_stream(r: &mut Report, rng: &mut Rng, ctx: &Ctx, parts: &[&ClassBytes], stream_kind: &str, stream_no: usize) {
+/// which kinds of parsed values the full reads deliver (distribution of the value comparison with the model)
+fn count_value_kinds(r: &mut Report, es: &[Ev]) {
+	const KINDS: [&str; 13] = ["Byte(", "Char(", "Double(", "Float(", "Integer(", "Long(", "Short(", "Boolean(", "String(", "Enum {", "Class(", "AnnotationInterface(", "ArrayType("];
+	for e in es {
+		match e {
+			Ev::Attr { name, content, val, .. } if !val.is_empty() => {
+				r.count(&format!("value:{name}"));
+				if name != "Signature" && name != "SourceFile" {
+					for k in KINDS { let n = content.matches(k).count() as u64; if n > 0 { r.count_n(&format!("value_kind:{}", k.trim_end_matches(['(', '{', ' '])), n); } }
+					if content.contains("ArrayType([ArrayType(") || content.contains("AnnotationInterface(") && content.contains("ArrayType(") { r.count("value_kind:nested"); }
+				}
+			}
+			Ev::Field { es: Some(x), .. } | Ev::Method { es: Some(x), .. } | Ev::Rc { es: Some(x), .. } => count_value_kinds(r, x),
+			_ => {}
+		}
+	}
+}
+
+/// `light`: only the reference read, the decline patterns and the successive read_class calls (no per-class configurations)
+fn do_stream(r: &mut Report, rng: &mut Rng, ctx: &Ctx, parts: &[&ClassBytes], stream_kind: &str, stream_no: usize, light: bool) {
 	let stream: Vec<u8> = parts.iter().flat_map(|p| p.bytes.iter().copied()).collect();
 	let ends: Vec<u64> = parts.iter().scan(0u64, |acc, p| { *acc += p.bytes.len() as u64; Some(*acc) }).collect();
 	let names: Vec<&str> = parts.iter().map(|p| p.name.as_str()).collect();
@@ -660,7 +850,9 @@ fn do_stream(r: &mut Report, rng: &mut Rng, ctx: &Ctx, parts: &[&ClassBytes], st
 	crumb(&replay_head("(the harness process died while reading / replaying this stream; configurations: full, then masks and decline choices)"));
 	// reference: full accepting visitors
 	let fulls: Vec<VDesc> = parts.iter().map(|_| VDesc::full()).collect();
+	let _ = take_headers();
 	let full_ans = run_config(&stream, &fulls);
+	let full_headers = take_headers();
 	let new = r.eval(&hex(&stream), full_ans.iter().all(|a| a.is_ok()));
 	if !new { r.count("duplicate_stream"); }
 	let mut runs: Vec<(Vec<VDesc>, Vec<ReadAns>)> = vec![(fulls.clone(), full_ans.clone())];
@@ -668,11 +860,28 @@ fn do_stream(r: &mut Report, rng: &mut Rng, ctx: &Ctx, parts: &[&ClassBytes], st
 		// a class duke cannot read with the full visitor is outside the property (C01/C16 own that)
 		r.count("stream_not_fully_readable");
 		if let Some(Err(e)) = full_ans.iter().find(|a| a.is_err()) { r.notes.push(format!("not readable by duke with the full visitor: {:?}: {}", names, clip(e, 0, 300))); }
-		// no correspondence case: the model does not parse attribute contents, where these failures come from
+		// no correspondence case: the model does not parse attribute contents, where these failures come from.
+		// What CAN be judged: a visitor that declines every class, or is interested in nothing, skips the contents the full visitor
+		// stumbles over; where such a read succeeds it must still end exactly behind its class.
 		let _ = &mut runs;
+		for (tag, d) in [("decline-class", VDesc { accept: false, ..VDesc::full() }), ("no-interest", VDesc { class: vec![], method_default: Some(vec![]), code_default: Some(vec![]), ..VDesc::full() })] {
+			let descs: Vec<VDesc> = parts.iter().map(|_| d.clone()).collect();
+			let ans = run_config(&stream, &descs);
+			r.count("unreadable_stream:skipping_reads");
+			for (i, a) in ans.iter().enumerate() {
+				if let Ok((_, pos)) = a {
+					r.count("unreadable_stream:skipping_read_succeeds");
+					if *pos != ends[i] {
+						let what = format!("[{tag}] read {i} of a stream the full visitor cannot read succeeds but leaves the caller's reader at position {pos}, the class file ends at {}", ends[i]);
+						r.violation(what.clone(), format!("{}what: {what}\n", replay_head(&describe(&d))));
+					}
+				}
+			}
+		}
 		return;
 	}
 	let full_traces: Vec<Option<Vec<Ev>>> = full_ans.iter().map(|a| a.as_ref().unwrap().0.clone()).collect();
+	if new { for t in full_traces.iter().flatten() { count_value_kinds(r, t); } }
 	// position exactness of the reference read
 	for (i, a) in full_ans.iter().enumerate() {
 		let pos = a.as_ref().unwrap().1;
@@ -693,14 +902,16 @@ fn do_stream(r: &mut Report, rng: &mut Rng, ctx: &Ctx, parts: &[&ClassBytes], st
 		if let Some(Some(got)) = Some(replay_masked(r, parts[0], &shape, tree, "full", &VDesc::full(), &full_traces[0])) { replay_runs.push((VDesc::full(), got)); }
 	} else if parts.len() == 1 { r.count("replay_no_tree:tree_builder_rejects_the_class"); }
 	// configurations: per class its own list; combined position-wise (shorter lists are padded with the full visitor)
-	let per_class: Vec<Vec<(String, VDesc)>> = full_traces.iter().map(|t| configs(rng, member_counts(t), ctx.thorough, r)).collect();
+	let per_class: Vec<Vec<(String, VDesc)>> = if light { full_traces.iter().map(|_| vec![]).collect() } else { full_traces.iter().map(|t| configs(rng, member_counts(t), ctx.thorough, r)).collect() };
 	let n = per_class.iter().map(|c| c.len()).max().unwrap_or(0);
 	for j in 0..n {
 		let descs: Vec<VDesc> = per_class.iter().map(|c| c.get(j).map(|x| x.1.clone()).unwrap_or_else(VDesc::full)).collect();
 		let kind = per_class.iter().filter_map(|c| c.get(j)).map(|x| x.0.as_str()).next().unwrap_or("full").to_owned();
+		let _ = take_headers();
 		let ans = run_config(&stream, &descs);
 		r.evaluations += 1;
 		let cfg_text = descs.iter().map(describe).collect::<Vec<_>>().join("\n  ");
+		check_headers(r, &kind, &take_headers(), &full_headers, &replay_head, &cfg_text);
 		// oracle: every read succeeds, ends at the end of its class, and delivers the projection of the full read
 		for i in 0..parts.len() {
 			match ans.get(i) {
@@ -739,6 +950,10 @@ fn do_stream(r: &mut Report, rng: &mut Rng, ctx: &Ctx, parts: &[&ClassBytes], st
 		// and a rotating fifth of them in the quick tier (the case files are the expensive part)
 		if to_model { r.count("configs_to_model"); runs.push((descs, ans)); }
 	}
+	if parts.len() >= 2 {
+		runs.extend(decline_patterns(r, rng, ctx, &stream, &ends, &full_traces, &full_headers, &replay_head));
+		read_class_successive(r, parts, &stream, &ends, &replay_head);
+	}
 	let pcs: Vec<Vec<MethodPcs>> = parts.iter().map(|p| pcs_of(&p.bytes)).collect();
 	r.case(stream_kind, g_case(&stream, &pcs, &runs));
 	if parts.len() == 1 {
@@ -753,7 +968,7 @@ pub fn run(ctx: &Ctx) -> anyhow::Result<Report> {
 	if std::env::var_os("C17_PANIC_TRACE").is_some() { std::panic::set_hook(Box::new(|i| eprintln!("panic: {i}"))); }
 	let mut rng = Rng::new(ctx.seed);
 	r.shard_size = 16;
-	r.rule = "streams = class files alone and random concatenations of 2..4 of them read by successive read_class_multi calls on one cursor. Class files: corpus/C17 (javac 17, --release 8 and 17, with/without -g -parameters: records, sealed classes, annotations of every element kind, type annotations, lambdas, switches, module-info), the shared corpus/classes (javac r8/r11/r17, 260 third-party and JDK classes, crafted classes with unknown attributes at every level, Synthetic, SourceDebugExtension, predefined names at foreign locations; quick tier: every third file of the javac/JDK sample), /repo's fixtures, and classes freshly generated from the seed by fbh::classfile::gen with shuffled attribute order. Per stream: full visitor, class declined, no interests, every single-bit (thorough: and all-but-one) class / method / code interest mask, decline every k-th (k=1..3) field / method / visit_code / record component, per-member ALTERNATING masks (neighbouring methods / visit_code answers of one class get different interests: all|none, code|all-but-code, single bits, period 1 and 2, with every third method declined; fields / record components alternately accepted), random per-member masks and decline choices. A rotating sixth of the configurations (and every alternating one) additionally through duke's ready-made visitors: `()` (position), a SimpleClassVisitor (interests fields + methods; projection oracle), the leanest visitor (fields Infallible, annotations / unknown attributes into (), default visit_instruction; max_stack / max_locals / exception table / line numbers / local variables against the projection), and ClassFile::accept into () and into the SimpleClassVisitor. One evaluation = one (stream, configuration) run through the real reader with the projection, position and masked-replay oracles; one correspondence case = one stream with its configurations (quick: a rotating fifth of them, thorough: two thirds) through the Coq model — event trace, stream positions, and the ROWS of every line-number / local-variable table and exception table handed to a code visitor (labels as bytecode offsets, names / descriptors / signatures by checksum against the pool entry the model's row designates; same rows, same order) — which also checks that the stream decodes to well-formed class structures (the hypothesis of the theorems). Replay: for every single-class stream the tree of duke::read_class is replayed (ClassFile::accept) into the tree builder (must give an equal tree), into the full recording visitor and into every configuration's recording visitor; oracle = the replayed trace equals the trace of reading the bytes with the same visitor (attribute-level events of one item as a multiset, members and instructions in order, contents by debug text), with the two known classes F20a (annotations attribute without annotations) and F20b (LocalVariable(Type)Table without rows) recognised by a relaxed comparison PLUS the class file actually containing such an attribute, and classes with a duplicated merged attribute counted as outside the hypothesis; one `replay-*` correspondence case per class = the recorded accept traces (quick: a rotating fifth of the configurations) against the Coq model of accept() in accept()'s own order, model tree builder succeeds iff duke's does, rebuilt tree equal. Edge inputs (stream kind `edge`): edits of generated classes and of corpus/C17 through fbh::classfile::raw — present-but-empty annotation lists at every level, empty InnerClasses / NestMembers / PermittedSubclasses / Record / Exceptions / MethodParameters, LineNumberTable / LocalVariableTable / LocalVariableTypeTable / StackMapTable without rows (alone and next to tables with rows), flags-only Deprecated / Synthetic, Signature at every level, an annotations attribute twice in one item, the ROWS of a Code's LocalVariableTable / LocalVariableTypeTable / LineNumberTable redistributed over several attributes in other orders (type table before table, one attribute per row shuffled, halves alternating, a type table between two tables; a type table synthesised where the class has none), a CLDC `StackMap` attribute with 0..3 entries in ascending / descending / mixed offset order; corpus/C17/replay/*.class are the witnesses of the Coq refutation theorems byte for byte. Non-trivial = duke reads every class of the stream with the full visitor; distinct by stream bytes.".into();
+	r.rule = "streams = class files alone and random concatenations of 2..4 of them read by successive read_class_multi calls on one cursor. Class files: corpus/C17 (javac 17, --release 8 and 17, with/without -g -parameters: records, sealed classes, annotations of every element kind, type annotations, lambdas, switches, module-info), the shared corpus/classes (javac r8/r11/r17, 260 third-party and JDK classes, crafted classes with unknown attributes at every level, Synthetic, SourceDebugExtension, predefined names at foreign locations; quick tier: every third file of the javac/JDK sample), /repo's fixtures, and classes freshly generated from the seed by fbh::classfile::gen with shuffled attribute order. Per stream: full visitor, class declined, no interests, every single-bit (thorough: and all-but-one) class / method / code interest mask, decline every k-th (k=1..3) field / method / visit_code / record component, per-member ALTERNATING masks (neighbouring methods / visit_code answers of one class get different interests: all|none, code|all-but-code, single bits, period 1 and 2, with every third method declined; fields / record components alternately accepted), random per-member masks and decline choices. A rotating sixth of the configurations (and every alternating one) additionally through duke's ready-made visitors: `()` (position), a SimpleClassVisitor (interests fields + methods; projection oracle), the leanest visitor (fields Infallible, annotations / unknown attributes into (), default visit_instruction; max_stack / max_locals / exception table / line numbers / local variables against the projection), and ClassFile::accept into () and into the SimpleClassVisitor. One evaluation = one (stream, configuration) run through the real reader with the projection, position and masked-replay oracles; one correspondence case = one stream with its configurations (quick: a rotating fifth of them, thorough: two thirds) through the Coq model — event trace, stream positions, and the ROWS of every line-number / local-variable table and exception table handed to a code visitor (labels as bytecode offsets, names / descriptors / signatures by checksum against the pool entry the model's row designates; same rows, same order) — which also checks that the stream decodes to well-formed class structures (the hypothesis of the theorems). Replay: for every single-class stream the tree of duke::read_class is replayed (ClassFile::accept) into the tree builder (must give an equal tree), into the full recording visitor and into every configuration's recording visitor; oracle = the replayed trace equals the trace of reading the bytes with the same visitor (attribute-level events of one item as a multiset, members and instructions in order, contents by debug text), with the two known classes F20a (annotations attribute without annotations) and F20b (LocalVariable(Type)Table without rows) recognised by a relaxed comparison PLUS the class file actually containing such an attribute, and classes with a duplicated merged attribute counted as outside the hypothesis; one `replay-*` correspondence case per class = the recorded accept traces (quick: a rotating fifth of the configurations) against the Coq model of accept() in accept()'s own order, model tree builder succeeds iff duke's does, rebuilt tree equal. Edge inputs (stream kind `edge`): edits of generated classes and of corpus/C17 through fbh::classfile::raw — present-but-empty annotation lists at every level, empty InnerClasses / NestMembers / PermittedSubclasses / Record / Exceptions / MethodParameters, LineNumberTable / LocalVariableTable / LocalVariableTypeTable / StackMapTable without rows (alone and next to tables with rows), flags-only Deprecated / Synthetic, Signature at every level, an annotations attribute twice in one item, the ROWS of a Code's LocalVariableTable / LocalVariableTypeTable / LineNumberTable redistributed over several attributes in other orders (type table before table, one attribute per row shuffled, halves alternating, a type table between two tables; a type table synthesised where the class has none), a CLDC `StackMap` attribute with 0..3 entries in ascending / descending / mixed offset order; corpus/C17/replay/*.class are the witnesses of the Coq refutation theorems byte for byte. The CALLER's reader (stream kinds `concat*` and `decline*`: 2..4 class files, mostly small, some streams longer than 8 / 16 / 64 KiB): EVERY accept / decline pattern over the classes (declined first, last, in the middle, several in a row; accepted classes read without interests, by a random partial visitor or by the full visitor), each pattern read from a std::io::Cursor, from a Read + Seek reader written in the harness that keeps its own position from the calls it receives and counts them, and from the same reader handing out 1..5 bytes per read call; after EVERY call the position of the reader the harness owns is read again and must be the end of that class; all three readers must answer alike; the Cursor answers of every pattern go to the Coq model (positions and traces). Successive duke::read_class calls on one reader (three reader kinds) and ONE Vec<ClassFile> handed from read_class_multi call to call: each class equal to the class read alone, position behind it. The class header handed to visit_class is the same for every visitor. Parsed VALUES: for RuntimeVisible/InvisibleAnnotations (element_value trees of every kind, nested), AnnotationDefault, Signature, SourceFile and the attributes that are rows of pool indices (InnerClasses, EnclosingMethod, NestHost, NestMembers, PermittedSubclasses, ModuleMainClass, ModulePackages, Exceptions, MethodParameters) the recording visitors flatten what they were handed (duke's public Annotation / ElementValue / Object / InnerClass … values; strings as checksums, numeric constants as bits) and the Coq model parses the same value from the attribute body and the constant pool — compared on every event of every correspondence case, for reads and for replays, at class, field and method level; edge kind `annotation-values`: byte / char / short / boolean constants over WIDE int entries (narrowing), NaNs with payloads, extreme longs, empty / non-ASCII strings, empty arrays, annotations without pairs, repeated pair names, nesting 1..6 and exactly 64 deep (the reader's limit). If the full visitor cannot read more than a tenth of the streams the run reports that with the first such stream (otherwise such streams are outside the property and only counted). Non-trivial = duke reads every class of the stream with the full visitor; distinct by stream bytes.".into();
 
 	let mut classes = load_classes(&mut r);
 	if classes.is_empty() { anyhow::bail!("no class files found"); }
@@ -768,7 +983,7 @@ pub fn run(ctx: &Ctx) -> anyhow::Result<Report> {
 	}
 	// single-class streams
 	for (no, cb) in classes.iter().enumerate() {
-		do_stream(&mut r, &mut rng, ctx, &[cb], "single", no);
+		do_stream(&mut r, &mut rng, ctx, &[cb], "single", no, false);
 	}
 	// freshly generated classes (fbh::classfile::gen): every attribute kind at every level, unknown attributes,
 	// predefined names at foreign locations, exotic strings; attribute order shuffled by the knobs
@@ -785,7 +1000,7 @@ pub fn run(ctx: &Ctx) -> anyhow::Result<Report> {
 		}
 	}
 	for (no, cb) in generated.iter().enumerate() {
-		do_stream(&mut r, &mut rng, ctx, &[cb], "generated", no);
+		do_stream(&mut r, &mut rng, ctx, &[cb], "generated", no, false);
 	}
 	// edge cases for replay: present-but-empty lists, flags-only attributes, the same attribute at every level,
 	// duplicated annotation attributes — edits of generated classes and of the property's own corpus
@@ -797,7 +1012,8 @@ pub fn run(ctx: &Ctx) -> anyhow::Result<Report> {
 			let mut todo: Vec<Vec<&str>> = vec![];
 			if bi < n_sys { for k in edge::KINDS { todo.push(vec![k]); } }
 			let n_rand = if ctx.thorough { 2 } else { 1 };
-			for _ in 0..n_rand { let n = rng.range(1, 3); todo.push((0..n).map(|_| *rng.pick(&edge::KINDS)).collect()); }
+			// (the last kind makes the class unreadable for the full visitor: only on its own, never mixed into the other edits)
+			for _ in 0..n_rand { let n = rng.range(1, 3); todo.push((0..n).map(|_| *rng.pick(&edge::KINDS[..edge::KINDS.len() - 1])).collect()); }
 			for kinds in todo {
 				match guarded(AssertUnwindSafe(|| edge::make(&mut rng, &b.bytes, &kinds))) {
 					Ok(Some(bytes)) => { for k in &kinds { r.count(&format!("edge:{k}")); } edges.push(ClassBytes { name: format!("edge {kinds:?} of {}", b.name), bytes }); }
@@ -807,7 +1023,7 @@ pub fn run(ctx: &Ctx) -> anyhow::Result<Report> {
 		}
 	}
 	for (no, cb) in edges.iter().enumerate() {
-		do_stream(&mut r, &mut rng, ctx, &[cb], "edge", no);
+		do_stream(&mut r, &mut rng, ctx, &[cb], "edge", no, false);
 	}
 	classes.extend(generated);
 	classes.extend(edges);
@@ -817,7 +1033,38 @@ pub fn run(ctx: &Ctx) -> anyhow::Result<Report> {
 		let k = rng.range(2, 4);
 		let parts: Vec<&ClassBytes> = (0..k).map(|_| &classes[rng.below(classes.len())]).collect();
 		if parts.iter().map(|p| p.bytes.len()).sum::<usize>() > 12_000 { r.count("concat_skipped_large"); continue; }
-		do_stream(&mut r, &mut rng, ctx, &parts, &format!("concat{k}"), no);
+		do_stream(&mut r, &mut rng, ctx, &parts, &format!("concat{k}"), no, false);
+	}
+	// decline patterns: streams of 2..4 class files, EVERY accept / decline pattern over them (see `decline_patterns`); small
+	// classes mostly, and a few streams longer than 8 / 16 / 64 KiB (the sizes of common read buffers) with a large class first,
+	// in the middle or last
+	let small: Vec<&ClassBytes> = classes.iter().filter(|c| c.bytes.len() <= 1500).collect();
+	let large: Vec<&ClassBytes> = classes.iter().filter(|c| c.bytes.len() > 9000 && c.bytes.len() < 40_000).collect();
+	let n_decl = if ctx.thorough { 36 } else { 12 };
+	if !small.is_empty() {
+		for no in 0..n_decl {
+			let k = 2 + no % 3;
+			let mut parts: Vec<&ClassBytes> = (0..k).map(|_| small[rng.below(small.len())]).collect();
+			if no % 6 == 5 && !large.is_empty() {
+				// one large class (position rotating), for the longest stream several
+				let at = (no / 6) % k;
+				parts[at] = large[rng.below(large.len())];
+				if no + 6 >= n_decl { for q in parts.iter_mut() { if rng.chance(1, 2) { *q = large[rng.below(large.len())]; } } }
+			}
+			let total: usize = parts.iter().map(|p| p.bytes.len()).sum();
+			r.count(if total > 65536 { "decline_stream:longer_than_64KiB" } else if total > 16384 { "decline_stream:longer_than_16KiB" } else if total > 8192 { "decline_stream:longer_than_8KiB" } else { "decline_stream:up_to_8KiB" });
+			do_stream(&mut r, &mut rng, ctx, &parts, &format!("decline{k}"), no, true);
+		}
+	}
+	// Streams that the FULL visitor cannot read are outside the property and are not judged; a handful of corpus classes are like
+	// that (duke refuses a type reference javac writes).  If that becomes the rule, nothing is judged any more: reported with the
+	// first such stream as the failing input.
+	let unread = r.dist.get("stream_not_fully_readable").copied().unwrap_or(0);
+	let streams = r.evaluations.max(1).min(r.dist.iter().filter(|(k, _)| k.starts_with("stream:") && !k.starts_with("stream:replay")).map(|(_, v)| *v).sum::<u64>() + unread).max(1);
+	if unread * 10 > streams {
+		let first = r.notes.iter().find(|n| n.starts_with("not readable by duke with the full visitor")).cloned().unwrap_or_default();
+		let what = format!("the full visitor fails on {unread} of {streams} streams of well-formed class files (javac corpus, generated classes), so partial and declining visitors are no longer compared with anything");
+		r.violation(what.clone(), format!("property C17\nwhat: {what}\nfirst stream: {first}\n"));
 	}
 	Ok(r)
 }
